@@ -54,7 +54,7 @@ class Model:
             d['_blocks'][name] = self.interp.instantiate(self.block_cls, (name, c, list(ins), list(gs), list(outs)))
         return c
 
-    def build_circuit(self, spec, outputs=()):
+    def build_circuit(self, spec, outputs=(), blocks=()):
         """The same circuit built through the repository's own constructors, in the order of `spec` (which may list a gate
         before its operands, as a bench text may): `_emplace_gate` per gate -- the unchecked constructor the parser uses --
         and `set_outputs`.  The users index is then whatever the repository's bookkeeping makes of it."""
@@ -65,6 +65,9 @@ class Model:
             self.interp.steps = 0
             emplace(label, self.types[tname], tuple(operands))
         RepoFunc(self.interp, self.mod, self.mod.func('Circuit.set_outputs'), bound_self=c)(list(outputs))
+        for name, ins, gs, outs in blocks:
+            self.interp.steps = 0
+            RepoFunc(self.interp, self.mod, self.mod.func('Circuit.make_block'), bound_self=c)(name, list(gs), list(outs), list(ins))
         return c
 
     def call(self, c: Instance, method: str, *args, **kwargs):
